@@ -6,17 +6,26 @@
 package main
 
 import (
+	"context"
+	"encoding/gob"
 	"encoding/json"
 	"flag"
 	"fmt"
+	"net"
 	"os"
+	"sort"
 	"strings"
+	"sync"
+	"time"
 
 	"github.com/sirupsen/logrus"
 
 	"github.com/projectcalico/calico/libcalico-go/lib/backend/api"
 	"github.com/projectcalico/calico/libcalico-go/lib/backend/model"
 	"github.com/projectcalico/calico/libcalico-go/lib/backend/syncersv1/dedupebuffer"
+	"github.com/projectcalico/calico/typha/pkg/discovery"
+	"github.com/projectcalico/calico/typha/pkg/syncclient"
+	"github.com/projectcalico/calico/typha/pkg/syncproto"
 )
 
 type rng struct{ s uint64 }
@@ -82,7 +91,7 @@ func (s *sink) OnUpdates(us []api.Update) {
 			delete(s.view, k)
 		} else {
 			v := 0
-			fmt.Sscanf(u.Value.(string), "v%d", &v)
+			fmt.Sscanf(fmt.Sprint(u.Value), "v%d", &v)
 			s.items = append(s.items, fmt.Sprintf("IUpd (US %d %d %s)", k, v, utName[u.UpdateType]))
 			s.human = append(s.human, fmt.Sprintf("k%d=v%d (%s)", k, v, utName[u.UpdateType]))
 			s.view[k] = v
@@ -103,6 +112,7 @@ type caseRun struct {
 	human    []string
 	restarts int
 	// bookkeeping for the non-triviality rule
+	lastDrained       bool
 	restartWithLive   bool
 	pendingResync     bool
 	convergedAfterRst bool
@@ -110,7 +120,10 @@ type caseRun struct {
 }
 
 func (c *caseRun) finishOp(op string, h string) {
-	dr := c.d.VerifQueueLen() == 0
+	c.finishOpD(op, h, c.d.VerifQueueLen() == 0)
+}
+
+func (c *caseRun) finishOpD(op string, h string, dr bool) {
 	c.ops = append(c.ops, op)
 	c.outs = append(c.outs, fmt.Sprintf("([%s], %v)", strings.Join(c.s.items, "; "), dr))
 	if len(c.s.human) > 0 {
@@ -328,13 +341,463 @@ func genRandom(r *rng, c *caseRun, boundary bool) {
 	}
 }
 
+// ---------------------------------------------------------------------------------------------------------------
+// Second stream: the REAL syncclient.SyncerClient (Start, its reconnect goroutine, startOneConnection, connect,
+// loop) with the REAL DedupeBuffer as its callbacks, talking over loopback TCP to a scripted Typha endpoint that
+// serves snapshot + deltas, drops the connection at arbitrary points and comes back with a different datastore.
+//
+// The history handed to the model/oracle is the GROUND TRUTH of the endpoint, not what the buffer happened to be
+// told: every dropped connection is an OpRestart, every message sent is an OpUpdates / OpStatus.  Only the
+// statuses the client generates by itself (ResyncInProgress at loop start, WaitForDatastore after a restart) are
+// taken from what the buffer received.  If the client does not announce a restart before the new connection's data
+// (or announces it late), the sink's stream differs from the model's and the convergence oracle fails.
+//
+// Determinism without sleeps: the endpoint follows every message with a MsgPing and waits for the MsgPong (the
+// client handles messages sequentially, so the callback for the message has returned); after a drop it waits for the
+// next connection's MsgClientHello (sent by the client after the restart callbacks and the loop-start status).
+
+type cbRec struct {
+	kind    string // "restart", "status", "updates"
+	st      api.SyncStatus
+	ord     []string
+	drained bool
+}
+
+// recCB is what the client sees as its callbacks: it forwards to the real DedupeBuffer and notes, after each call,
+// the order of the queued keys and whether the queue is empty.
+type recCB struct {
+	mu     sync.Mutex
+	d      *dedupebuffer.DedupeBuffer
+	recs   []cbRec
+	closed bool
+}
+
+func (w *recCB) note(kind string, st api.SyncStatus) {
+	var ord []string
+	for _, k := range w.d.VerifPendingKeys() {
+		ord = append(ord, fmt.Sprint(keyIdx(k)))
+	}
+	w.recs = append(w.recs, cbRec{kind: kind, st: st, ord: ord, drained: w.d.VerifQueueLen() == 0})
+}
+
+func (w *recCB) OnTyphaConnectionRestarted() {
+	w.mu.Lock()
+	defer w.mu.Unlock()
+	if w.closed {
+		return
+	}
+	w.d.OnTyphaConnectionRestarted()
+	w.note("restart", 0)
+}
+
+func (w *recCB) OnStatusUpdated(st api.SyncStatus) {
+	w.mu.Lock()
+	defer w.mu.Unlock()
+	if w.closed {
+		return
+	}
+	w.d.OnStatusUpdated(st)
+	w.note("status", st)
+}
+
+func (w *recCB) OnUpdates(us []api.Update) {
+	w.mu.Lock()
+	defer w.mu.Unlock()
+	if w.closed {
+		return
+	}
+	w.d.OnUpdates(us)
+	w.note("updates", 0)
+}
+
+func (w *recCB) since(i int) []cbRec {
+	w.mu.Lock()
+	defer w.mu.Unlock()
+	return append([]cbRec(nil), w.recs[i:]...)
+}
+
+var _ syncclient.RestartAwareCallbacks = (*recCB)(nil)
+
+type srvConn struct {
+	c       net.Conn
+	enc     *gob.Encoder
+	dec     *gob.Decoder
+	refused bool
+}
+
+type fakeTypha struct {
+	ln    net.Listener
+	modeC chan bool     // true: complete the handshake, false: read the hello and hang up
+	connC chan *srvConn // nil: handshake refused
+	n     uint64
+}
+
+const ioTimeout = 5 * time.Second
+
+func (f *fakeTypha) acceptLoop() {
+	for {
+		c, err := f.ln.Accept()
+		if err != nil {
+			return
+		}
+		ok := <-f.modeC
+		_ = c.SetDeadline(time.Now().Add(ioTimeout))
+		dec := gob.NewDecoder(c)
+		var env syncproto.Envelope
+		if err := dec.Decode(&env); err != nil {
+			_ = c.Close()
+			f.connC <- nil
+			continue
+		}
+		if !ok {
+			// refused: the driver hangs up once it has looked at the buffer
+			f.connC <- &srvConn{c: c, refused: true}
+			continue
+		}
+		f.n++
+		enc := gob.NewEncoder(c)
+		err = enc.Encode(syncproto.Envelope{Message: syncproto.MsgServerHello{Version: "verif",
+			SyncerType: syncproto.SyncerTypeFelix, SupportsNodeResourceUpdates: true, ServerConnID: f.n}})
+		if err != nil {
+			_ = c.Close()
+			f.connC <- nil
+			continue
+		}
+		f.connC <- &srvConn{c: c, enc: enc, dec: dec}
+	}
+}
+
+// send one message and make sure the client has finished handling it (ping/pong)
+func (sc *srvConn) send(msg any) error {
+	_ = sc.c.SetDeadline(time.Now().Add(ioTimeout))
+	if err := sc.enc.Encode(syncproto.Envelope{Message: msg}); err != nil {
+		return err
+	}
+	if err := sc.enc.Encode(syncproto.Envelope{Message: syncproto.MsgPing{Timestamp: time.Now()}}); err != nil {
+		return err
+	}
+	var env syncproto.Envelope
+	if err := sc.dec.Decode(&env); err != nil {
+		return err
+	}
+	if _, ok := env.Message.(syncproto.MsgPong); !ok {
+		return fmt.Errorf("expected pong, got %T", env.Message)
+	}
+	return nil
+}
+
+type clientRun struct {
+	*caseRun
+	r       *rng
+	w       *recCB
+	f       *fakeTypha
+	sc      *srvConn
+	recIdx  int
+	tags    map[string]bool
+	trouble string
+}
+
+func (c *clientRun) fail(msg string) {
+	if c.trouble == "" {
+		c.trouble = msg
+		c.human = append(c.human, "TROUBLE: "+msg)
+	}
+}
+
+// the buffer's callbacks since the last look
+func (c *clientRun) take() []cbRec {
+	rs := c.w.since(c.recIdx)
+	c.recIdx += len(rs)
+	return rs
+}
+
+func ordStr(o []string) string { return strings.Join(o, "; ") }
+
+// a new connection has completed (or been refused at) the handshake: account for the callbacks the client made on
+// its own.  truthRestart: the endpoint dropped the previous connection, which is a restart whatever the client says.
+func (c *clientRun) burst(truthRestart bool) {
+	before := c.d.VerifQueueLen() == 0 // not used when the client announced the restart
+	_ = before
+	rs := c.take()
+	if truthRestart {
+		if len(c.s.view) > 0 {
+			c.restartWithLive = true
+		}
+		c.pendingResync = true
+		c.restarts++
+		dr := c.lastDrained
+		if len(rs) > 0 && rs[0].kind == "restart" {
+			dr = rs[0].drained
+		}
+		c.finishOpD("OpRestart", "connection dropped by the endpoint (restart)", dr)
+	}
+	for i, rc := range rs {
+		switch rc.kind {
+		case "restart":
+			if !(truthRestart && i == 0) {
+				c.tags["client:restart-announced-out-of-place"] = true
+			}
+		case "status":
+			if rc.st == api.InSync {
+				c.pendingResync = false
+			}
+			c.finishOpD(fmt.Sprintf("OpStatus %s [%s]", statusName[rc.st], ordStr(rc.ord)),
+				"client status "+statusName[rc.st], rc.drained)
+		default:
+			c.tags["client:unexpected-updates-in-handshake"] = true
+		}
+	}
+	c.lastDrained = c.d.VerifQueueLen() == 0
+}
+
+// wait for the next connection; mode false = the endpoint reads the hello and hangs up (another restart)
+func (c *clientRun) awaitConn(first bool) {
+	truth := !first
+	for tries := 0; ; tries++ {
+		ok := tries > 0 || c.r.intn(6) != 0 || first
+		c.f.modeC <- ok
+		var sc *srvConn
+		select {
+		case sc = <-c.f.connC:
+		case <-time.After(ioTimeout):
+			c.fail("client did not reconnect")
+			c.sc = nil
+			return
+		}
+		c.burst(truth)
+		if sc == nil {
+			c.fail("handshake failed on the endpoint's side")
+			c.sc = nil
+			return
+		}
+		if !sc.refused {
+			c.sc = sc
+			return
+		}
+		c.tags["client:handshake-refused"] = true
+		_ = sc.c.Close()
+		truth = true
+	}
+}
+
+func (c *clientRun) drop() {
+	if c.sc != nil {
+		_ = c.sc.c.Close()
+	}
+	c.awaitConn(false)
+}
+
+func (c *clientRun) srvStatus(st api.SyncStatus) {
+	if c.sc == nil {
+		return
+	}
+	if err := c.sc.send(syncproto.MsgSyncStatus{SyncStatus: st}); err != nil {
+		c.fail("endpoint could not deliver a status: " + err.Error())
+	}
+	rs := c.take()
+	var ord []string
+	if len(rs) > 0 {
+		ord = rs[len(rs)-1].ord
+	}
+	if st == api.InSync {
+		if c.pendingResync && len(rs) > 0 && len(ord) > 0 {
+			c.synthDeletes = true
+		}
+		c.pendingResync = false
+	}
+	c.finishOp(fmt.Sprintf("OpStatus %s [%s]", statusName[st], ordStr(ord)), "endpoint sends status "+statusName[st])
+	c.lastDrained = c.d.VerifQueueLen() == 0
+}
+
+func (c *clientRun) srvUpdates(us []upd) {
+	if c.sc == nil {
+		return
+	}
+	var kvs []syncproto.SerializedUpdate
+	var cs, hs []string
+	for _, u := range us {
+		g := api.Update{KVPair: model.KVPair{Key: keyOf(u.k), Revision: "1"}, UpdateType: u.t}
+		if u.v != 0 {
+			g.Value = fmt.Sprintf("v%d", u.v)
+			cs = append(cs, fmt.Sprintf("US %d %d %s", u.k, u.v, utName[u.t]))
+			hs = append(hs, fmt.Sprintf("k%d=v%d", u.k, u.v))
+		} else {
+			cs = append(cs, fmt.Sprintf("DL %d %s", u.k, utName[u.t]))
+			hs = append(hs, fmt.Sprintf("del k%d", u.k))
+		}
+		su, err := syncproto.SerializeUpdate(g)
+		if err != nil {
+			panic(err)
+		}
+		kvs = append(kvs, su)
+	}
+	if err := c.sc.send(syncproto.MsgKVs{KVs: kvs}); err != nil {
+		c.fail("endpoint could not deliver KVs: " + err.Error())
+	}
+	c.take()
+	c.finishOp(fmt.Sprintf("OpUpdates [%s]", strings.Join(cs, "; ")), "endpoint sends "+strings.Join(hs, ","))
+	c.lastDrained = c.d.VerifQueueLen() == 0
+}
+
+func (c *clientRun) pullSome(pct int) {
+	c.maybePull(c.r, pct)
+	c.lastDrained = c.d.VerifQueueLen() == 0
+}
+
+func genClient(r *rng) line {
+	d := dedupebuffer.New()
+	base := &caseRun{d: d, s: &sink{view: map[int]int{}}}
+	c := &clientRun{caseRun: base, r: r, w: &recCB{d: d}, tags: map[string]bool{}}
+	c.lastDrained = true
+	ln, err := net.Listen("tcp", "127.0.0.1:0")
+	if err != nil {
+		panic(err)
+	}
+	c.f = &fakeTypha{ln: ln, modeC: make(chan bool, 4), connC: make(chan *srvConn, 4)}
+	go c.f.acceptLoop()
+	ctx, cancel := context.WithCancel(context.Background())
+	defer func() {
+		// freeze the record, then let the client die in the background (its shutdown path retries with sleeps)
+		c.w.mu.Lock()
+		c.w.closed = true
+		c.w.mu.Unlock()
+		cancel()
+		_ = ln.Close()
+		if c.sc != nil {
+			_ = c.sc.c.Close()
+		}
+	}()
+
+	disc := discovery.New(discovery.WithAddrOverride(ln.Addr().String()))
+	cl := syncclient.New(disc, "verif", "verif-host", "verif", c.w,
+		&syncclient.Options{SyncerType: syncproto.SyncerTypeFelix, DisableDecoderRestart: true})
+
+	truth := map[int]int{}
+	mutate := func() (int, int) {
+		k := r.intn(numKeys)
+		if _, ok := truth[k]; ok && r.intn(3) == 0 {
+			delete(truth, k)
+			return k, 0
+		}
+		v := 1 + r.intn(numVals)
+		truth[k] = v
+		return k, v
+	}
+	for i := 0; i < 2+r.intn(4); i++ {
+		mutate()
+	}
+	pullPct := []int{0, 20, 50, 90}[r.intn(4)]
+	conns := 2 + r.intn(3)
+
+	c.f.modeC <- true
+	if err := cl.Start(ctx); err != nil {
+		panic(err)
+	}
+	select {
+	case c.sc = <-c.f.connC:
+	case <-time.After(ioTimeout):
+		c.fail("client did not connect")
+	}
+	c.burst(false)
+
+	for ci := 0; ci < conns && c.trouble == ""; ci++ {
+		if ci > 0 {
+			c.drop()
+			c.pullSome(pullPct)
+		}
+		if c.sc == nil {
+			break
+		}
+		if r.intn(3) != 0 {
+			c.srvStatus(api.ResyncInProgress)
+		}
+		var snap []upd
+		perm := []int{}
+		for k := range numKeys {
+			perm = append(perm, k)
+		}
+		for i := len(perm) - 1; i > 0; i-- {
+			j := r.intn(i + 1)
+			perm[i], perm[j] = perm[j], perm[i]
+		}
+		for _, k := range perm {
+			if v, ok := truth[k]; ok {
+				snap = append(snap, upd{k, v, api.UpdateTypeKVNew})
+			}
+		}
+		aborted := false
+		for len(snap) > 0 {
+			n := 1 + r.intn(3)
+			if n > len(snap) {
+				n = len(snap)
+			}
+			c.srvUpdates(snap[:n])
+			snap = snap[n:]
+			c.pullSome(pullPct)
+			if ci < conns-1 && r.intn(6) == 0 {
+				aborted = true
+				c.tags["client:drop-mid-snapshot"] = true
+				break
+			}
+		}
+		if !aborted {
+			c.srvStatus(api.InSync)
+			c.pullSome(pullPct)
+			for i := 0; i < r.intn(5); i++ {
+				k, v := mutate()
+				t := api.UpdateTypeKVUpdated
+				if v == 0 {
+					t = api.UpdateTypeKVDeleted
+				}
+				c.srvUpdates([]upd{{k, v, t}})
+				c.pullSome(pullPct)
+			}
+			if ci < conns-1 {
+				c.tags["client:drop-after-insync"] = true
+			}
+		}
+		// the datastore moves while the client is away
+		for i := 0; i < r.intn(4); i++ {
+			mutate()
+		}
+	}
+	c.drain()
+
+	if c.trouble != "" {
+		// the client stalled or broke the connection on its own: make the case fail visibly
+		c.ops = append(c.ops, "OpPull 0%nat")
+		c.tags["client:trouble"] = true
+	}
+	coq := fmt.Sprintf("{| c_ops := [%s]; c_outs := [%s] |}", parenJoin(c.ops), strings.Join(c.outs, "; "))
+	tags := []string{"gen:real-syncclient", fmt.Sprintf("restarts:%d", min(c.restarts, 3))}
+	var ctags []string
+	for t := range c.tags {
+		ctags = append(ctags, t)
+	}
+	sort.Strings(ctags)
+	tags = append(tags, ctags...)
+	if c.synthDeletes {
+		tags = append(tags, "synthesized-deletes")
+	}
+	if c.convergedAfterRst {
+		tags = append(tags, "converged-after-restart")
+	}
+	return line{Coq: coq, NT: c.restartWithLive && c.convergedAfterRst, Key: "client|" + strings.Join(c.ops, ";"),
+		Sample: map[string]any{"stream": "real syncclient over loopback", "trace": c.human}, Tags: tags}
+}
+
 func main() {
 	n := flag.Int("n", 100, "cases")
 	seed := flag.Uint64("seed", 1, "seed")
+	nclient := flag.Int("nclient", 0, "cases of the second stream (real syncclient + real buffer over loopback)")
 	flag.Parse()
 	logrus.SetLevel(logrus.PanicLevel)
 	r := &rng{s: *seed}
 	enc := json.NewEncoder(os.Stdout)
+	rc := &rng{s: *seed ^ 0x5eed0c25}
+	for i := 0; i < *nclient; i++ {
+		_ = enc.Encode(genClient(rc))
+	}
 	for i := 0; i < *n; i++ {
 		c := &caseRun{d: dedupebuffer.New(), s: &sink{view: map[int]int{}}}
 		var tag string
